@@ -137,6 +137,57 @@ def old_roots_readable(t, history):
     return None
 
 
+def root_node_tail(rng, ops):
+    """ops observing / assigning the root_node property, appended after a history (bodies are those the implementation stored).
+    Returns (tail ops, expectations); the map oracle does not look at the tail."""
+    from eth_hash.auto import keccak
+    outs, t = BX.run_history(ops)
+    _, cps, history = oracle(ops, outs)
+    cur = bytes(t.root_hash)
+    tail = [("root_node",)]
+    exp = [("root_node", cur)]
+    olds = [(r, m) for r, m in history if r != cur and r in t.db]
+    if olds and rng.random() < 0.7:
+        r_old, m_old = rng.choice(olds)
+        tail += [("set_root_node", bytes(t.db[r_old])), ("state",)]
+        exp += [("ok",), ("root", r_old)]
+        for k in sorted(m_old)[:4] + [kk for kk in BX.related(m_old.keys()) if kk not in m_old][:3]:
+            tail.append(("get", k))
+            exp.append(("get", m_old.get(k)))
+        cur = r_old
+    for bad in rng.sample([b"\x03abc", b"\x09", b"\xff" * 33, b"", b"\x03"], 2):
+        tail.append(("set_root_node", bad))
+        exp.append(("refused", 11 if bad == b"" else 1))
+    tail += [("state",), ("root_node",)]
+    exp += [("root", cur), ("root_node", cur)]
+    if rng.random() < 0.5 and cur in t.db:
+        # assigning the current root node again is idempotent
+        tail += [("set_root_node", bytes(t.db[cur])), ("state",)]
+        exp += [("ok",), ("root", cur)]
+    return tail, exp
+
+
+def tail_oracle(tail, exp, outs):
+    from eth_hash.auto import keccak
+    from trie.constants import BLANK_HASH
+    for op, e, out in zip(tail, exp, outs):
+        if e[0] == "root_node":
+            if e[1] == BLANK_HASH:
+                if out != Exc(7, [BLANK_HASH]) and out != Exc(7):
+                    return f"root_node of an empty trie gave {out!r}"
+            elif isinstance(out, Exc) or keccak(out) != e[1]:
+                return "root_node is not the body whose hash is root_hash"
+        elif e[0] == "ok" and out is not None:
+            return f"root_node = <valid node> raised {out!r}"
+        elif e[0] == "root" and out[0] != e[1]:
+            return "root_hash after a root_node assignment / refusal is not the expected root"
+        elif e[0] == "get" and out != e[1]:
+            return f"after re-rooting at an earlier root node get({op[1].hex()}) = {out!r}, that state held {e[1]!r}"
+        elif e[0] == "refused" and out != Exc(e[1]):
+            return f"root_node = {op[1]!r} was not refused as expected: {out!r}"
+    return None
+
+
 def nontrivial(ops, outs, cps):
     return (any(len(m) >= 3 for m, _ in cps) and any(isinstance(o, Exc) for o in outs)
             and any(op[0] == "delete_subtrie" and out is None for op, out in zip(ops, outs)))
@@ -154,12 +205,23 @@ def check(tier, seed):
     rng = random.Random(seed)
     n = 150 if tier == "quick" else 2500
     cases = corpus() + [gen_history(rng, tier) for _ in range(n)]
-    terms, spec_terms, where = [], [], []
+    terms, spec_terms, where, term_ops = [], [], [], []
     for ci, ops in enumerate(cases):
         outs, t = BX.run_history(ops)
         R.evaluations += 1
         bad, cps, history = oracle(ops, outs)
         bad = bad or refusal_unchanged(ops, outs) or old_roots_readable(t, history)
+        if not bad and ci % 3 == 0:
+            # the root_node property (getter / setter), after the history
+            tail, exp = root_node_tail(rng, ops)
+            full = ops + tail
+            fouts, _ = BX.run_history(full)
+            tb = tail_oracle(tail, exp, fouts[len(ops):])
+            if tb:
+                R.spec_violations.append((tb, {"ops": full}))
+            R.count("root_node_tail")
+            terms.append(BX.coq_case(full, fouts))
+            term_ops.append(full)
         if bad:
             def still(o):
                 oo, tt = BX.run_history(o)
@@ -175,6 +237,7 @@ def check(tier, seed):
             if len(R.samples) < 2:
                 R.samples.append(C.to_json({"ops": [o for o in ops if o[0] in ("set", "delete", "delete_subtrie")]}))
         terms.append(BX.coq_case(ops, outs))
+        term_ops.append(ops)
         pick = cps if tier == "thorough" else cps[-1:] + (rng.sample(cps[:-1], min(2, len(cps) - 1)) if len(cps) > 1 else [])
         for m, root in pick:
             spec_terms.append(f"({clist(['(' + cb(k) + ', ' + cb(v) + ')' for k, v in sorted(m.items())])}, {cobs(root)})")
@@ -188,8 +251,8 @@ def check(tier, seed):
         R.spec_violations.append(("root is not the hash of the canonical encoding (bin_root keccak256, evaluated in Coq) of the contents",
                                   {"ops": cases[where[m]]}))
     for m in mism[:3]:
-        R.corr_mismatches.append(("impl≠model at BinaryTrie history", {"ops": cases[m]},
-                                  {"impl": BX.run_history(cases[m])[0],
+        R.corr_mismatches.append(("impl≠model at BinaryTrie history", {"ops": term_ops[m]},
+                                  {"impl": BX.run_history(term_ops[m])[0],
                                    "model": C.eval_show("C12", "cases", BX.IMPORTS, "binary_run", BX.CASE_T, terms[m])}))
 
     def search():
